@@ -13,9 +13,16 @@ HEX = "0123456789abcdefABCDEF"
 def hex_record(code):
     rec = {"kind": "hex", "code": [ord(c) for c in code], "rgb": [0, 0, 0], "rgbstr": "", "html": "", "err": ""}
     try:
-        rec["rgb"] = [int(x) for x in hex2rgb(code)]
-        rec["rgbstr"] = hex2rgbstr(code)
-        rec["html"] = hex2html(code)
+        rgb, rgbstr, html = hex2rgb(code), hex2rgbstr(code), hex2html(code)
+        # a result of the wrong shape (not a triple of integers / not a string) is data for the verdict, not a reason to crash
+        if not (isinstance(rgb, (tuple, list)) and len(rgb) == 3 and all(isinstance(x, int) and not isinstance(x, bool) for x in rgb)):
+            rec["err"] = "shape:rgb=%r" % (rgb,)
+        elif not isinstance(rgbstr, str):
+            rec["err"] = "shape:rgbstr=%r" % (rgbstr,)
+        elif not isinstance(html, str):
+            rec["err"] = "shape:html=%r" % (html,)
+        else:
+            rec["rgb"], rec["rgbstr"], rec["html"] = [int(x) for x in rgb], rgbstr, html
     except Exception as ex:
         rec["err"] = type(ex).__name__
     return rec
